@@ -17,16 +17,22 @@ RULE = ("case = (parameter list [(name, default)], decorator options positional/
         "1-parameter signatures and (quick: a seeded third of / thorough: all) 2-parameter signatures over the 16-name "
         "vocabulary x 8 default kinds with default options, plus random signatures with <= 4 parameters x random options "
         "(Task(...) and @task(...)), each also parsed with the real Parser on by-construction argvs and passed through "
-        "Executor.normalize into the task body; a case is non-trivial when it has >= 2 parameters or a decorator option is set; distinct = "
+        "Executor.normalize into the task body; 22 % of the random signatures end in keyword-only parameters (a parameter "
+        "lacking a default may follow a defaulted one), 6 % contain *args / **kwargs / positional-only parameters; plus "
+        "namespaces of 2-4 tasks (namesakes with different signatures, one Task object under several names / in several "
+        "collections): every context of to_contexts() against its own task's signature (fresh task, model, oracle, "
+        "parse + bind through the namespace's Executor); a case is non-trivial when it has >= 2 parameters or a decorator option is set; distinct = "
         "distinct (params, options) pairs")
 TRUSTED = ["Lean 4.33 kernel", "axioms propext/Classical.choice/Quot.sound only",
            "harness/props/c09.py correspondence + canonicalisation",
            "CPython str.isalnum/lstrip/rstrip/replace on ASCII identifiers (modelled by Char.isAlphanum / translateUnderscores)",
            "model Invoke/Model/TaskSig.lean hand-written (arg_opts, get_arguments, add_arg uniqueness, as_kwargs), tied by "
            "correspondence on every run; contexts are those of the shared parser model Invoke/Model/Parser.lean"]
-ASSUMPTIONS = ["parameters are plain positional-or-keyword parameters with ASCII identifier names ([A-Za-z_][A-Za-z0-9_]*), "
-               "pairwise distinct (Python enforces it); *args/**kwargs/keyword-only parameters and non-ASCII identifiers "
-               "are outside the theorems",
+ASSUMPTIONS = ["parameters are plain or keyword-only parameters (in any order of defaulted / not defaulted) with ASCII "
+               "identifier names ([A-Za-z_][A-Za-z0-9_]*), pairwise distinct (Python enforces it); non-ASCII identifiers "
+               "are outside the theorems; *args, **kwargs and positional-only parameters get the same CLI as plain ones "
+               "(so the model and the CLI theorems cover them) but their values cannot be delivered by keyword: known "
+               "findings C09-var-positional-param / -var-keyword-param / -positional-only-param",
                "defaults are None, str, int, bool or a list of str; a float default is checked by the oracle only "
                "(the shared parser model has no float kind)",
                "a parameter whose name consists only of underscores is refused with ValueError (fix #29); the theorems about "
